@@ -5,7 +5,7 @@ import ast
 
 from sa.cfg import CFG
 from sa.effects import Effects, relevant_mutation_sites
-from sa.model import Program, norm, walk_no_nested
+from sa.model import Program, alpha, norm, walk_no_nested
 from sa.report import Results
 from sa.tables.reviewed import Reviewed
 from sa.util import callee, dotted, exc_name, parent_map
@@ -19,14 +19,25 @@ STRUCT_OPS = {"call .append", "call .remove", "subscript __delitem__", "call .__
               "call .extend", "call .clear"}
 
 # structural container writes that need no mirror of their own (one line of reason each)
-REVIEWED_NO_MIRROR = {
-    ("_set_attrpath_value", "current.values.append(binding)"):
+REVIEWED_NO_MIRROR = {  # statements alpha-normalised (locals as $1, $2, ...); original spelling in the comment
+    ("_set_attrpath_value", "$1.values.append($2)"):  # current.values.append(binding)
         "creation of an intermediate nested root inside an attrpath family: rendered through the leaf's _AttrpathEntry appended below",
-    ("_remove_attrpath_value", "parent_set.values.remove(binding)"):
+    ("_remove_attrpath_value", "$1.values.remove($2)#prune"):  # parent_set.values.remove(binding)
         "pruning of an emptied intermediate/root set after its last leaf (and that leaf's entry) was removed",
-    ("_merge_attrpath_sets", "target.values.append(item)"):
+    ("_merge_attrpath_sets", "$1.values.append($2)"):  # target.values.append(item)
         "parse-time merge into nested sets, which never own an order list (the order is recorded on the outer set before merging)",
 }
+
+
+def _is_leaf_append(f, node) -> bool:
+    """in _set_attrpath_value the *leaf* append is the one outside the segment loop (the intermediate creation is inside)"""
+    pm_ = parent_map(f.node)
+    cur_ = pm_.get(node)
+    while cur_ is not None:
+        if isinstance(cur_, ast.For):
+            return False
+        cur_ = pm_.get(cur_)
+    return True
 
 
 def order_exprs(fn: ast.AST) -> set[str]:
@@ -82,26 +93,37 @@ def run(prog: Program, roots=None, prop="C14", rid_prefix="R-C14") -> Results:
         for n in ast.walk(f.node):
             if isinstance(n, ast.Expr) and isinstance(n.value, ast.Call) and norm(n.value).startswith("target.values.append("):
                 r1.instances += 1
-                r1.ob(("_merge_attrpath_sets", norm(n.value)) in REVIEWED_NO_MIRROR, {"site": f.key, "write": norm(n.value), "reviewed": True})
+                r1.ob(("_merge_attrpath_sets", alpha(n.value, f.node)) in REVIEWED_NO_MIRROR, {"site": f.key, "write": norm(n.value), "reviewed": True})
     cfgs = {}
     for m in structural:
         r1.instances += 1
         f = prog.funcs[m.func]
-        stmt_text = norm(m.node if not isinstance(m.node, ast.Expr) else m.node.value)
-        if isinstance(m.node, ast.Call):
-            stmt_text = norm(m.node)
-        if (m.func, stmt_text) in REVIEWED_NO_MIRROR:
-            r1.ob(True, {"site": m.func, "write": stmt_text, "reviewed": REVIEWED_NO_MIRROR[(m.func, stmt_text)]})
+        stmt_text = m.text  # alpha-normalised
+        rkey = (m.func, stmt_text)
+        if m.func == "_remove_attrpath_value" and stmt_text == "$1.values.remove($2)":
+            # two removals share this text: the leaf removal (mirrored below) and the pruning of emptied parents inside the
+            # `for ... in reversed(stack[:-1])` loop; only the latter is the reviewed entry
+            pm_ = parent_map(f.node)
+            cur_ = pm_.get(m.node)
+            in_prune_loop = False
+            while cur_ is not None:
+                if isinstance(cur_, ast.For) and "reversed(" in norm(cur_.iter):
+                    in_prune_loop = True
+                cur_ = pm_.get(cur_)
+            if in_prune_loop:
+                rkey = (m.func, stmt_text + "#prune")
+        if rkey in REVIEWED_NO_MIRROR and not (rkey[0] == "_set_attrpath_value" and _is_leaf_append(f, m.node)):
+            r1.ob(True, {"site": m.func, "write": stmt_text, "reviewed": REVIEWED_NO_MIRROR[rkey]})
             continue
         cfg = cfgs.setdefault(m.func, CFG(f.node))
         node = cfg.containing(m.node) if not isinstance(m.node, ast.stmt) else (cfg.node_of(m.node) or cfg.containing(m.node))
         orders = order_exprs(f.node)
         mts = mirror_tests(cfg, orders)
         ok = node is not None and bool(mts) and cfg.postdominated_by(node, [t for t, _ in mts])
-        r1.ob(ok, {"site": m.func, "write": stmt_text, "mirror_guard": [norm(t.ast) for t, _ in mts]})
+        r1.ob(ok, {"site": m.func, "write": norm(m.node)[:70], "mirror_guard": [norm(t.ast) for t, _ in mts]})
         if not ok:
             res.add(f"{rid_prefix}-1", (m.func, "container write without order mirror", stmt_text), f.loc(m.node),
-                    f"{m.func}: `{stmt_text}` changes a binding container but no `if <attrpath_order>: <same op on the order list>` "
+                    f"{m.func}: `{norm(m.node)[:80]}` changes a binding container but no `if <attrpath_order>: <same op on the order list>` "
                     f"follows on every path: the renderer reads attrpath_order when it is non-empty, so the text would not show the change")
     # ---------------------------------------------------------------- R-C14-2
     r2 = res.rule(f"{rid_prefix}-2", "sibling deletion/overwrite sites agree on the kinds of order entries (plain binding vs "
@@ -124,7 +146,20 @@ def run(prog: Program, roots=None, prop="C14", rid_prefix="R-C14") -> Results:
                     guard = cur
                 cur = pm.get(cur)
             gtxt = norm(guard.test) if guard is not None else ""
-            plain = " is " in gtxt and ("item is " in gtxt or "entry is " in gtxt)
+            loop_ = None
+            cur = pm.get(dels[0])
+            while cur is not None:
+                if isinstance(cur, ast.For):
+                    loop_ = cur
+                    break
+                cur = pm.get(cur)
+            elem = None
+            if loop_ is not None and isinstance(loop_.target, ast.Tuple) and len(loop_.target.elts) == 2 and isinstance(loop_.target.elts[1], ast.Name):
+                elem = loop_.target.elts[1].id
+            elif loop_ is not None and isinstance(loop_.target, ast.Name):
+                elem = loop_.target.id
+            plain = guard is not None and any(isinstance(c, ast.Compare) and isinstance(c.ops[0], ast.Is) and isinstance(c.left, ast.Name)
+                                              and c.left.id == elem and isinstance(c.comparators[0], ast.Name) for c in ast.walk(guard.test))
             entry = ".binding is" in gtxt or "'binding'" in gtxt or "_AttrpathEntry" in gtxt
             proves_leaf = key == "_remove_attrpath_value" and "leaf_nested=False" in norm(f.node)
             ok = (plain and entry) or (entry and proves_leaf)
